@@ -499,3 +499,54 @@ def r05_8_entry_point_wiring(ctx: Ctx) -> RuleResult:
         else:
             rr.ok({"fn": q, "returns": f"{callee}({', '.join(f'{p}={w}' for p, w in want.items())})"})
     return rr
+
+
+# ------------------------------------------------------------------------------------------- R05.10 local instants at the ends of time
+
+
+@rule("C05")
+def r05_10_safe_plus_at_the_ends_of_time(ctx: Ctx) -> RuleResult:
+    """Instant._safe_plus(offset) gives the local instant of an instant, or the before-min / after-max sentinel when instant + offset
+    leaves the representable range; zone intervals compute their local bounds with it.  On the first and the last day of time the
+    answer depends on the direction of the offset: the function is evaluated by the abstract interpreter on exact values (first /
+    last day, start / end of the day, offsets of +/- 1 h and +/- 18 h) and the constructor it reaches is compared with
+    floor((days * NPD + nanos + offset) / NPD) against the day range."""
+    from ..absint import Iv, Obj
+    from ..oblig import interp
+
+    rr = RuleResult("R05.10", "Instant._safe_plus returns the before-min / after-max sentinel exactly when instant + offset leaves the day range, evaluated on the first and last day of time", min_instances=12)
+    M = ctx.M
+    f = M.func("Instant._safe_plus")
+    lo, hi = M.fold_class_const("Instant", "_MIN_DAYS"), M.fold_class_const("Instant", "_MAX_DAYS")
+    npd = M.fold_class_const("PyodaConstants", "NANOSECONDS_PER_DAY")
+    if not all(isinstance(v, int) for v in (lo, hi, npd)):
+        raise AnalysisError("Instant day range not foldable")
+    for days in (lo, hi, lo + 1, hi - 1):
+        for nano in (0, npd - 1, 3600 * 10**9):
+            for off_s in (3600, -3600, 64800, -64800):
+                rr.inst()
+                seen: list[str] = []
+
+                def on_call(c, callee, bound, st, fn, seen=seen):
+                    if fn.name not in ("_safe_plus", "_plus"):
+                        return  # the sentinels are themselves built with _LocalInstant._ctor
+                    if callee.name in ("before_min_value", "after_max_value") or (callee.name.endswith("_ctor") and callee.cls is not None and callee.cls.name == "_LocalInstant"):
+                        seen.append("before" if callee.name == "before_min_value" else "after" if callee.name == "after_max_value" else "valid")
+
+                I = interp(ctx)
+                I.max_depth = 6
+                I.hooks_all_depths = True
+                I.on_call = on_call
+                dur = Obj("Duration", {mangle("Duration", "__days"): Iv(days, days), mangle("Duration", "__nano_of_day"): Iv(nano, nano)})
+                so = Obj("Instant", {mangle("Instant", "__duration"): dur})
+                off = Obj("Offset", {mangle("Offset", "__seconds"): Iv(off_s, off_s)})
+                I.analyse(f, self_obj=so, params={f.value_params[0].arg: off})
+                rr.states += 1
+                fd = (days * npd + nano + off_s * 10**9) // npd
+                want = "before" if fd < lo else "after" if fd > hi else "valid"
+                got = set(seen)
+                if got == {want}:
+                    rr.ok()
+                else:
+                    rr.fail(f.qual, f"day {days} ({'first' if days == lo else 'last' if days == hi else 'inner'}), nanosecond of day {nano}, offset {off_s:+d} s: reaches {sorted(got) or 'no constructor'}; instant + offset lies on day {fd}, so the answer is `{want}`", ctx.loc(f))
+    return rr
